@@ -3,6 +3,7 @@ import FormulaeModel.Driver.C04
 import FormulaeModel.Driver.C10
 import FormulaeModel.Spec.C09
 import FormulaeModel.Generated.Tables
+import FormulaeModel.Model.Pipeline
 namespace FormulaeModel.Driver.C09
 open Lean FormulaeModel FormulaeModel.Driver FormulaeModel.Design FormulaeModel.Driver.C04 FormulaeModel.NA
 
@@ -26,7 +27,7 @@ def handle (op : String) (j : Json) : Option Json :=
       let frame := frameOfJson ((j.getObjVal? "frame").toOption.getD Json.null)
       let cols := frame.map (·.name)
       -- model: var_names ∩ columns, the NA step for the requested action
-      let used := (formulaVars e).filter cols.contains
+      let used := (Pipeline.usedVars Generated.resolverOps e).filter cols.contains
       let action := getStr j "action"
       let step : Json := match naStep Generated.naActions action used frame with
         | .ok f => Json.mkObj [("rows", f.nrows), ("cols", jStrs (sortedDedup (f.map (·.name))))]
